@@ -36,6 +36,39 @@ func parseKV(line string) map[string]string {
 	return m
 }
 
+// panicBox collects a panic raised inside a goroutine the suite started (a panic of the library under a Write/Read call):
+// it becomes the case's observation instead of killing the harness.
+type panicBox struct {
+	mu      sync.Mutex
+	msg     string
+	onPanic func()
+}
+
+func (b *panicBox) guard() {
+	if r := recover(); r != nil {
+		st := strings.ReplaceAll(string(debug.Stack()), "\n", "|")
+		st = strings.ReplaceAll(st, " ", "_")
+		st = strings.ReplaceAll(st, "\t", "")
+		if len(st) > 1500 {
+			st = st[:1500]
+		}
+		b.mu.Lock()
+		if b.msg == "" {
+			b.msg = fmt.Sprintf("PANIC=%s stack=%s", strings.ReplaceAll(fmt.Sprint(r), " ", "_"), st)
+		}
+		b.mu.Unlock()
+		if b.onPanic != nil {
+			b.onPanic()
+		}
+	}
+}
+
+func (b *panicBox) get() string {
+	b.mu.Lock()
+	defer b.mu.Unlock()
+	return b.msg
+}
+
 func safeRun(s *Suite, kv map[string]string) (res string) {
 	defer func() {
 		if r := recover(); r != nil {
